@@ -37,7 +37,11 @@ SPECS = [
     ("str", "t ~ z | lag(z) + a", {"z"}, [("z", 1)]),
     ("str", "t + w ~ lag(w, 2):a | w + b", {"w"}, [("w", 2)]),
     ("kw", {"first": "z + t", "second": ("a", "lag(z) + b")}, {"z"}, [("z", 1)]),
+    # option cluster_by="numerical_factors": every part is laid out as if it were built alone (see SPEC_OPTIONS)
+    ("str", "t ~ z + a | a + z + a:A + b", {"z", "A"}, []),
+    ("kw", {"first": "b + a + t", "second": ("a + b + b:A", "t:A + a + b:a")}, {"A"}, []),
 ]
+SPEC_OPTIONS = {22: {"cluster_by": "numerical_factors"}, 23: {"cluster_by": "numerical_factors"}}
 
 
 def make_formula(kind, spec):
@@ -98,6 +102,7 @@ def check_config(cfg, numeric: dict, same, tag_eq, symbolic: bool):
             df[k] = numpy.asarray(v, dtype=float)
     out = cfg["output"]
     mkw = {"materializer": cfg["materializer"]} if cfg.get("materializer") else {}
+    mkw.update(SPEC_OPTIONS.get(cfg["spec_id"], {}))
     problems, claims = [], []
     F = make_formula(kind, spec)
     nulls = na.null_rows(nvars, zs, ws, as_)
@@ -122,7 +127,7 @@ def check_config(cfg, numeric: dict, same, tag_eq, symbolic: bool):
         if arr.shape[0] != len(kept):
             problems.append(("rows-differ", f"part {path} has {arr.shape[0]} rows, the jointly kept rows are {kept}"))
             continue
-        if out == "pandas" and not mkw and list(part.index) != [df.index[k] for k in kept]:
+        if out == "pandas" and not cfg.get("materializer") and list(part.index) != [df.index[k] for k in kept]:
             problems.append(("index-differs", f"part {path} index {list(part.index)} != {[df.index[k] for k in kept]}"))
         if part.model_spec is not sl[path]:
             problems.append(("spec-mismatch", f"part {path}: attached spec is not the one at the same place of .model_spec"))
